@@ -37,6 +37,7 @@ func (o *Ob) Key() string { return o.Prop + "|" + o.Rule + "|" + o.Construct }
 
 // Ctx is the per-property checking context.
 type Ctx struct {
+	alias map[string]string
 	P        *Prog
 	Prop     string
 	Tier     string
@@ -66,7 +67,24 @@ func (c *Ctx) Rule(id, statement string) {
 	c.rules[id] = statement
 }
 
+// Alias files every obligation of rule `from` under rule `to` until cleared (to == "").
+// It lets one property re-establish, under its own rule id, obligations that another
+// property's analysis produces (a shared premise), without duplicating the analysis.
+func (c *Ctx) Alias(from, to string) {
+	if c.alias == nil {
+		c.alias = map[string]string{}
+	}
+	if to == "" {
+		delete(c.alias, from)
+	} else {
+		c.alias[from] = to
+	}
+}
+
 func (c *Ctx) add(rule, construct string, pos token.Pos, v Verdict, detail string) *Ob {
+	if to, ok := c.alias[rule]; ok {
+		rule = to
+	}
 	o := &Ob{Prop: c.Prop, Rule: rule, Construct: construct, Pos: c.P.Position(pos), Verdict: v, Detail: detail}
 	if prev, ok := c.byKey[o.Key()]; ok {
 		// Same construct reported twice: keep the worst verdict, disambiguate never by line.
